@@ -22,14 +22,18 @@ MANIFEST = {
 RULE = (
     'Constructed workflow: a source task foo on R1 / R1/<pt> / P1, an '
     'absolute trigger foo[^] | foo[<pt>] | foo[^+Pn] on output succeeded / '
-    'started / custom x, feeding 1-2 dependent tasks on recurrences P1, P2, '
-    '+P1/P1, P1!<pt>, alone or combined (& / |) with a previous-cycle or '
-    'same-cycle parent; optional runahead limit P0-P3; optional warm start '
+    'started / custom x, feeding 1-2 dependent tasks (two dependents '
+    'reference the same output or two different outputs of the one source '
+    'instance, e.g. foo[^]:started => bar and foo[^] => baz) on recurrences '
+    'P1, P2, +P1/P1, P1!<pt>, alone or combined (& / |) with a '
+    'previous-cycle or same-cycle parent; optional runahead limit P0-P3; '
+    'optional warm start '
     '(start point > initial point); integer or datetime cycling; outcome '
     'exceptions; a history of loop / return / advance / deliver / fair-round '
     'steps with 0-3 `restart` steps (real stop --now or clean stop, jobs '
     'optionally progressing while down, new Scheduler on the same run '
-    'directory) at generated positions, then the fair drain.  Oracle: once a '
+    'directory) at generated positions, then the fair drain.  Oracle, '
+    'applied to each referenced output separately: once a '
     'process_message event shows the referenced output of the referenced '
     'source instance newly complete, every later pool snapshot (end of every '
     'main-loop iteration, Scheduler.shutdown() entry, right after restart '
@@ -37,9 +41,10 @@ RULE = (
     'pooled instance of a dependent whose graph line at that point contains '
     'the absolute atom (instances present at completion, added later, '
     'loaded at restart, added after a restart - labelled separately).  '
-    'Non-trivial = the absolute output completed and >= 1 dependent '
+    'Non-trivial = a referenced absolute output completed and >= 1 dependent '
     'instance was checked in a snapshot taken after it; distinct by the '
-    'whole case.')
+    'whole case.  Classes count how often two outputs of one source '
+    'instance are referenced / both completed / followed by a restart.')
 ASSUMPTIONS = [
     '"Has that prerequisite satisfied" is read at main-loop iteration '
     'boundaries (and at shutdown / restart snapshots): an instance added to '
@@ -93,19 +98,28 @@ def cases(draw):
     form = draw(st.sampled_from([0, 1, 2]))
     if q != icp and form == 0:
         form = 1
-    ndep = draw(st.sampled_from([1, 1, 2]))
+    ndep = draw(st.sampled_from([1, 1, 2, 2]))
     deps = ['bar', 'baz'][:ndep]
     tasks = ['foo', 'c'] + deps
+    # the output each dependent's absolute trigger references: the same one
+    # for all, or (two dependents) two different outputs of the one source
+    # instance
+    outs = [out] * ndep
+    if ndep == 2 and draw(st.integers(0, 2)):
+        outs[1] = draw(st.sampled_from(
+            [o for o in ('succeeded', 'started', 'x') if o != out]))
+        if draw(st.booleans()):
+            outs.reverse()
     custom = {'foo': {'x': draw(st.sampled_from(
-        ['x', 'the x file is ready']))}} if out == 'x' else {}
+        ['x', 'the x file is ready']))}} if 'x' in outs else {}
     opt = {t: {'succ': False, 'submit': False, 'fail_required': False,
                'custom': {}} for t in tasks}
-    if out == 'x':
+    if 'x' in outs:
         opt['foo']['custom']['x'] = False
     sections = [{'rec': src_rec, 'lines': [{'lhs': None, 'rhs': ['foo']}]}]
     uses_c = False
     lhs_forms = []
-    for d in deps:
+    for d, d_out in zip(deps, outs):
         rk = draw(st.sampled_from(['P1', 'P1', 'P2', '+P1/P1', 'P1!']))
         if rk == 'P1':
             rec = {'kind': 'P', 'step': 1, 'off': 0, 'excl': []}
@@ -118,7 +132,7 @@ def cases(draw):
                    'excl': [draw(st.integers(icp, fcp))]}
         if not rec_points(rec, icp, fcp):
             rec = {'kind': 'P', 'step': 1, 'off': 0, 'excl': []}
-        a = _atom('foo', abs_=q, out=out, form=1 if form else 0)
+        a = _atom('foo', abs_=q, out=d_out, form=1 if form else 0)
         lf = draw(st.sampled_from([0, 0, 1, 1, 2, 3]))
         if lf in (1, 3) and rk not in ('P1', 'P2'):
             # d[-Pn] would point at an off-sequence instance at some point
@@ -170,8 +184,8 @@ def cases(draw):
         max_size=8))
     sched = [['del', 0] if s[0] == 'del' else s for s in sched]
     return {'spec': spec, 'outcomes': outcomes, 'schedule': sched,
-            'abs': {'t': 'foo', 'q': q, 'out': out, 'form': form},
-            'start': start, 'lhs_forms': lhs_forms}
+            'abs': {'t': 'foo', 'q': q, 'out': outs[0], 'form': form},
+            'outs': outs, 'start': start, 'lhs_forms': lhs_forms}
 
 
 def flow_text_of(case) -> str:
@@ -233,14 +247,8 @@ async def _check(case, ctx: Ctx) -> CaseResult:
         inconclusive = sc.inconclusive
         flow_text = sc.drv.flow_text
     model = Model(spec, start=case.get('start'))
-    deps = dependents_of(spec, model, ab)
-    q_str = to_str[ab['q']]
-    keys = [f'{q_str}/{ab["t"]}:{ab["out"]}']
-    msg = spec.get('custom', {}).get(ab['t'], {}).get(ab['out'])
-    if msg and msg != ab['out']:
-        keys.append(f'{q_str}/{ab["t"]}:{msg}')
+    outs = list(dict.fromkeys(case.get('outs') or [ab['out']]))
     classes = {f'form:{("^", "point", "^+Pn")[ab["form"]]}',
-               'out:' + ('custom' if ab['out'] == 'x' else ab['out']),
                'mode:' + spec['mode']}
     for lf in case.get('lhs_forms', ()):
         classes.add('lhs:' + ('abs-only', 'abs&prev-cycle', 'abs&same-cycle',
@@ -249,6 +257,42 @@ async def _check(case, ctx: Ctx) -> CaseResult:
         classes.add('warm-start')
     if spec['extra'].get('runahead'):
         classes.add('runahead-limit')
+    if len(outs) > 1:
+        classes.add('two-outputs-of-one-source-instance-referenced')
+    checked = 0
+    completed = []          # (trace index, incarnation) per completed output
+    restarts = sum(1 for ev in trace if ev['k'] == 'restarted')
+    for out in outs:
+        ab_o = dict(ab, out=out)
+        res = _scan(trace, spec, model, ab_o, to_int, to_str, classes, viol)
+        checked += res['checked']
+        if res['done_at'] is not None:
+            completed.append((res['done_at'], res['done_inc']))
+    classes.add(f'restarts:{restarts}')
+    if len(completed) > 1:
+        classes.add('two-outputs-of-one-source-instance-completed')
+        last = max(i for i, _inc in completed)
+        if any(ev['k'] == 'restarted' for ev in trace[last:]):
+            classes.add('restart-after-two-outputs-completed')
+    uniq = {}
+    for v in viol:
+        uniq.setdefault(v.sig, v)
+    return CaseResult(
+        list(uniq.values()), bool(completed) and checked > 0,
+        sorted(classes), inconclusive=inconclusive,
+        info={'flow': flow_text, 'checked': checked})
+
+
+def _scan(trace, spec, model, ab, to_int, to_str, classes, viol) -> dict:
+    """Judge one referenced output `ab['out']` of the source instance over
+    the merged trace; adds class labels and violations in place."""
+    deps = dependents_of(spec, model, ab)
+    q_str = to_str[ab['q']]
+    keys = [f'{q_str}/{ab["t"]}:{ab["out"]}']
+    msg = spec.get('custom', {}).get(ab['t'], {}).get(ab['out'])
+    if msg and msg != ab['out']:
+        keys.append(f'{q_str}/{ab["t"]}:{msg}')
+    classes.add('out:' + ('custom' if ab['out'] == 'x' else ab['out']))
     done_at = None          # trace index of the completing event
     done_inc = None
     pooled_before = set()   # dependents seen in the last snapshot before
@@ -326,18 +370,11 @@ async def _check(case, ctx: Ctx) -> CaseResult:
                     f'at {where} although that output was recorded complete '
                     f'in iteration {trace[done_at]["it"]} (incarnation '
                     f'{done_inc}); prerequisites: {t["sat"]}'))
-    classes.add(f'restarts:{restarts}')
     if restarts_after_done:
         classes.add('restart-after-completion')
-    if len([i for i, ph in seen_after.items()]) >= 2:
+    if len(seen_after) >= 2:
         classes.add('>=2-dependent-instances-checked')
-    uniq = {}
-    for v in viol:
-        uniq.setdefault(v.sig, v)
-    return CaseResult(
-        list(uniq.values()), done_at is not None and checked > 0,
-        sorted(classes), inconclusive=inconclusive,
-        info={'flow': flow_text, 'checked': checked})
+    return {'checked': checked, 'done_at': done_at, 'done_inc': done_inc}
 
 
 def sim_in_poll(trace, idx) -> bool:
